@@ -308,7 +308,7 @@ func kbAlphabet() []kbOp {
 		{kind: "create", key: -1, p1: "pw"},
 		{kind: "update", key: 5, p1: "pw", p2: "new"}, {kind: "update", key: 5, p1: "", p2: uniPass}, {kind: "update", key: 5, p1: "bad", p2: "new"}, {kind: "update", key: 6, p1: uniPass, p2: ""},
 		{kind: "delete", key: 5, p1: "pw"}, {kind: "delete", key: 5, p1: "new"}, {kind: "delete", key: 5, p1: "bad"}, {kind: "delete", key: 6, p1: uniPass}, {kind: "delete", key: -1, p1: "pw"},
-		{kind: "sign", key: 5, p1: "pw"}, {kind: "sign", key: 5, p1: "bad"}, {kind: "sign", key: 6, p1: long}, {kind: "sign", key: -1, p1: "pw"},
+		{kind: "sign", key: 5, p1: "pw"}, {kind: "sign", key: 5, p1: "new"}, {kind: "sign", key: 5, p1: "bad"}, {kind: "sign", key: 6, p1: long}, {kind: "sign", key: -1, p1: "pw"},
 		{kind: "exportobj", key: 5, p1: "pw"}, {kind: "exportobj", key: 5, p1: ""}, {kind: "exportobj", key: 6, p1: "bad"},
 		{kind: "exportimport", key: 5, p1: "pw", p2: "enc", p3: "enc"}, {kind: "exportimport", key: 5, p1: "pw", p2: "enc", p3: "bad"}, {kind: "exportimport", key: 5, p1: "bad", p2: "enc", p3: "enc"},
 		{kind: "exportimport", key: 6, p1: uniPass, p2: uniPass, p3: uniPass},
@@ -338,11 +338,24 @@ func listString(kb keys.Keybase) (string, []keys.KeyPair, error) {
 
 // runKbProgram executes prog on fresh keybases; returns failure description.
 func (c *c19) runKbProgram(mk func() (keys.Keybase, func()), ops []kbOp, prog []int, backend string) {
+	c.runKbProgramFrom(mk, ops, prog, backend, false)
+}
+
+// runKbProgramFrom optionally starts with key 5 already imported under "pw".
+func (c *c19) runKbProgramFrom(mk func() (keys.Keybase, func()), ops []kbOp, prog []int, backend string, preimport bool) {
 	kb1, cl1 := mk()
 	kb2, cl2 := mk()
 	defer cl1()
 	defer cl2()
 	m1, m2 := kbModel{}, kbModel{}
+	if preimport {
+		if _, err := kb1.ImportPrivateKeyObject(rawPriv(5), "pw"); err != nil {
+			c.fail("C19|keybase|prelude-import", "prelude import failed: "+err.Error(), nil)
+			return
+		}
+		m1[chain.Addr(5).String()] = "pw"
+		backend += "(key 5 pre-imported under \"pw\")"
+	}
 	created := ""
 	var names []string
 	for _, i := range prog {
@@ -538,6 +551,32 @@ func (c *c19) keybase(tier string) {
 	rec(0)
 	wg.Wait()
 	c.count(fmt.Sprintf("keybase programs (in-memory, L=%d)", L), n)
+	if L == 2 {
+		// quick tier: all programs of length 3 over a reduced alphabet (one key, the passphrase life cycle)
+		var small []int
+		for i, o := range ops {
+			if o.key == 5 && (o.kind == "importobj" && o.p1 == "pw" || o.kind == "update" && o.p1 != "" || o.kind == "delete" && o.p1 != "new" || o.kind == "sign" || o.kind == "exportobj" && o.p1 == "pw" || o.kind == "exportimport" && o.p3 == "enc" && o.p1 == "pw") {
+				small = append(small, i)
+			}
+		}
+		n = 0
+		for _, a := range small {
+			for _, b := range small {
+				for _, cc := range small {
+					n++
+					wg.Add(1)
+					sem <- struct{}{}
+					go func(a, b, cc int) {
+						defer wg.Done()
+						defer func() { <-sem }()
+						c.runKbProgramFrom(mem, ops, []int{a, b, cc}, "in-memory", true)
+					}(a, b, cc)
+				}
+			}
+		}
+		wg.Wait()
+		c.count("keybase programs (in-memory, L=3, reduced alphabet)", n)
+	}
 	// the lazy, directory-backed keybase: a reduced alphabet, programs of length 2
 	dirRoot := filepath.Join(ev.Root, ".work", fmt.Sprintf("kb-%d", os.Getpid()))
 	os.MkdirAll(dirRoot, 0o755)
@@ -551,7 +590,7 @@ func (c *c19) keybase(tier string) {
 		smu.Unlock()
 		return keys.New("kb", d), func() { os.RemoveAll(d) }
 	}
-	small := []int{0, 4, 5, 7, 9, 11, 14, 15, 18, 21, 22}
+	small := []int{0, 4, 5, 7, 9, 11, 14, 16, 19, 22, 23}
 	n = 0
 	for _, a := range small {
 		for _, b := range small {
@@ -586,7 +625,7 @@ func C19(tier string) int {
 		c.keybase(tier)
 	}
 	run.Set("evaluations", c.eval)
-	run.Set("states", c.kinds["keybase programs (in-memory, L=2)"]+c.kinds["keybase programs (in-memory, L=3)"]+c.kinds["keybase programs (lazy, L=2)"])
+	run.Set("states", c.kinds["keybase programs (in-memory, L=2)"]+c.kinds["keybase programs (in-memory, L=3)"]+c.kinds["keybase programs (in-memory, L=3, reduced alphabet)"]+c.kinds["keybase programs (lazy, L=2)"])
 	run.Set("transitions", c.eval)
 	run.Set("traces_validated_against_impl", c.eval)
 	run.Set("distinct_nontrivial", c.eval)
